@@ -95,6 +95,65 @@ def worker(ki: int, tpi: int, seed: int, thorough: bool) -> Part:
     return part
 
 
+def w_frames(seed: int, thorough: bool) -> Part:
+    """The sender path as a whole: DataSecure.outgoing_cemi -> CEMIFrame.to_knx; the secured APDU on the WIRE is compared with the
+    reference computed from the fields that are on the wire (addresses, AT, EFF of Ctrl2, TPCI octet, SCF, sequence number)."""
+    from xknx.cemi import CEMIFrame, CEMILData, CEMIMessageCode
+    from xknx.cemi.flags import CEMIFlags, CEMIFrameType, CEMIPriority
+    from xknx.dpt import DPTArray
+    from xknx.secure.data_secure import DataSecure
+    from xknx.telegram import GroupAddress, IndividualAddress
+    from xknx.telegram.apci import GroupValueWrite
+
+    part = Part()
+    for key in keys(seed, thorough):
+        for ga in (0x0901, 0xFFFF):
+            for src in (0x1101, 0xFFFE):
+                for tp in (T.TDataGroup(), T.TDataTagGroup()):
+                    for eff in (CEMIFrameFormat.STANDARD, CEMIFrameFormat.LTE_HEE):
+                        for ft in (CEMIFrameType.STANDARD, CEMIFrameType.EXTENDED):
+                            for hop, prio in ((6, CEMIPriority.LOW), (0, CEMIPriority.SYSTEM)):
+                                for n in (1, 2, 9, 10, 40, 200):
+                                    for seq0 in (5, 2**47):
+                                        part.evaluations += 1
+                                        ds = DataSecure(group_key_table={GroupAddress(ga): key}, individual_address_table={}, last_sequence_number_sending=seq0)
+                                        data = CEMILData(flags=CEMIFlags(priority=prio, hop_count=hop, frame_type=ft, frame_format=eff), src_addr=IndividualAddress(src), dst_addr=GroupAddress(ga), tpci=tp,
+                                                         payload=GroupValueWrite(DPTArray(apdu_of(n, seed))))
+                                        case = {"frames": True, "key": key, "ga": ga, "src": src, "tag": isinstance(tp, T.TDataTagGroup), "eff": int(eff), "ft": ft.name, "hop": hop, "n": n, "seq0": seq0}
+                                        try:
+                                            sec = ds.outgoing_cemi(data)
+                                            raw = CEMIFrame(code=CEMIMessageCode.L_DATA_REQ, data=sec).to_knx()
+                                        except Exception as exc:  # noqa: BLE001
+                                            if isinstance(tp, T.TDataTagGroup):
+                                                part.outcomes["tag-group-known-finding"] += 1
+                                                continue  # block_0 with TPCI 0x04 is a listed finding of the first half
+                                            part.viol(exc_sig("sender-path-raises", exc), f"{case}: {exc!r}", case, rank=(n,))
+                                            continue
+                                        # parse the wire frame by hand: mc, addil, ctrl1, ctrl2, src, dst, len, tpci/apci ...
+                                        ctrl2 = raw[3]
+                                        w_src, w_dst = int.from_bytes(raw[4:6], "big"), int.from_bytes(raw[6:8], "big")
+                                        npdu_len = raw[8]
+                                        tpdu = raw[9 : 9 + npdu_len + 1]
+                                        if tpdu[0] & 0x03 != 0x03 or tpdu[1] != 0xF1:
+                                            part.viol("sender-path-frame-not-secured", f"{case}: {raw.hex()}", case, rank=(n,))
+                                            continue
+                                        scf_octet, asdu = tpdu[2], bytes(tpdu[3:])
+                                        w_seq = int.from_bytes(asdu[:6], "big")
+                                        ref = ccm.data_secure_asdu(key, scf_octet, w_seq, w_src, w_dst, bool(ctrl2 & 0x80), ctrl2 & 0x0F, tpdu[0] & 0xFC, data.payload.to_knx(), True)
+                                        part.nontrivial += 1
+                                        if not seq0 <= w_seq <= seq0 + 1 or (w_src, w_dst) != (src, ga):
+                                            part.viol("sender-path-wrong-sequence-or-addresses", f"{case}: wire seq {w_seq} src {w_src:#x} dst {w_dst:#x}", case, rank=(n,))
+                                        if asdu != ref:
+                                            if isinstance(tp, T.TDataTagGroup):
+                                                part.outcomes["tag-group-known-finding"] += 1
+                                                continue
+                                            what = "mac" if asdu[:-4] == ref[:-4] else "ciphertext"
+                                            part.viol(f"wire-frame-differs-from-reference:{what}:eff={ctrl2 & 0x0F}", f"{case}: frame {raw.hex()} carries {asdu.hex()}, reference over the wire fields {ref.hex()}", case, rank=(n,))
+                                        part.outcomes["frame-ok"] += 1
+    part.sample({"frames": True, "ga": 0x0901, "eff": 4, "n": 9})
+    return part
+
+
 def selftest() -> None:
     ccm.selftest()
 
@@ -105,12 +164,17 @@ def run(ctx: Ctx) -> None:
     ctx.rule = (
         f"SecureData.init_from_plain_apdu(...).to_knx() == vf/ref/ccm.py byte for byte (reference validated at start-up against the AN158 Annex A worked example and a frame captured from a real "
         f"device) and get_plain_apdu accepts the reference output: keys({len(k)}) x address fields({len(addr_fields(ctx.thorough))}) x AT(2) x EFF{{0,4}} x TPCI{[n for n, _ in TPCIS]} x "
-        f"sequence({len(seqs(ctx.seed, ctx.thorough))}) x all 24 SCF values x APDU lengths {'0..240' if ctx.thorough else lengths(False)}"
+        f"sequence({len(seqs(ctx.seed, ctx.thorough))}) x all 24 SCF values x APDU lengths {'0..240' if ctx.thorough else lengths(False)}; and the whole sender path DataSecure.outgoing_cemi -> CEMIFrame.to_knx "
+        "(keys x 2 groups x 2 sources x 2 TPCI x EFF {0,4} x frame-type flag x hop/priority x 6 lengths x 2 sequence starts): the secured APDU on the wire equals the reference computed from the fields on the wire"
     )
     ctx.assumptions = ["reference AES is the pure-Python FIPS-197 implementation in vf/ref/aes.py (checked against FIPS vectors at start-up)"]
     ctx.pmap(worker, [(ki, ti, ctx.seed, ctx.thorough) for ki in range(len(k)) for ti in range(len(TPCIS))])
+    ctx.pmap(w_frames, [(ctx.seed, ctx.thorough)])
 
 
 def replay(case: Any) -> list[tuple[str, str]]:
+    if case.get("frames"):
+        p = w_frames(0, False)
+        return [(sg, v[1]) for sg, v in p.viols.items()]
     scf = next(s for s in scfs() if s.to_knx()[0] == case["scf"])
     return check_one(bytes(case["key"]), case["sa"], case["da"], CEMIAddressType(case["at"]), CEMIFrameFormat(case["eff"]), TPCIS[case["tpci"]][1], case["seq"], scf, bytes(case["apdu"]))[1]
